@@ -57,8 +57,8 @@ def obligations():
     return [
         KModelOb('O6.5-script-selection', 'cfd', 'matching_scripts', 'FilterProtocol::check_filters_data + Storage::get_scripts_hash (real text): within the accepted prefix every block whose '
                  'filter matches a registered script with a recorded number below that block is reported (nothing is skipped), nothing is reported for filters matching '
-                 'no registered script, order and limit respected', ex_cfd, '<=2 filters, 2 script identities with arbitrary recorded numbers; GCS matching abstracted to a bit set',
-                 cuts=['Golomb-coded-set matching -> bit set over script identities', 'RocksDB -> decoded Meta store'], timeout=1500, mem_gb=16, min_covers=1, weight=3),
+                 'no registered script, order and limit respected', ex_cfd, '<=3 filters, 3 script identities with arbitrary recorded numbers; GCS matching abstracted to a bit set',
+                 cuts=['Golomb-coded-set matching -> bit set over script identities', 'RocksDB -> ordered row list (script rows + one foreign row)'], timeout=1500, mem_gb=16, min_covers=1, weight=3),
         MirOb('O6.3-attribution', 'SendBlocksProofProcess::execute_internally: a matched block is marked proved only after the pending record range has been consulted '
               '(necessary for tying the proved header number to the height of the filter that matched)', r'send_blocks_proof\.rs:\d+:\d+: \d+:\d+>::execute_internally\(',
               mir_attribution, src_rel=SBP),
